@@ -12,6 +12,7 @@ differential correspondence of tools/props/c15.py (the real parser against a fre
 with `cfgOf h` / `poolOf h` as computed by this model).
 -/
 import XV.Gen.ScannerFields
+import XV.Gen.ParserFields
 import XV.Lemmas.GrammarPool
 import XV.Lemmas.ParserState
 namespace XV.Props.C15
@@ -170,6 +171,62 @@ theorem classes_reset_complete (resetVal O scan next load) : ∀ c ∈ classes,
   · exact Or.inl (Or.inl (Or.inr h))
   · exact Or.inl (Or.inr h)
   · exact absurd h (by simp)
+
+/-! ### the parser classes (AbstractDOMParser → XercesDOMParser / DOMLSParserImpl, SAXParser, SAX2XMLReaderImpl)
+
+The same kind of decided statements over `XV.Gen.ParserFields` (clang AST + tools/c15_parser_fields.json): the parser objects keep
+state of their own between the scanner's callbacks (fInternalSubset, fCurrentParent, fWithinElement, fDocumentAdoptedByUser,
+fElemDepth, fPrefixes, fPrefixCounts, …), and the scanner announces a new document to them with resetDocument() / resetDocType().
+(C01's `domParser_reset_complete` covers the raw DOM pointers of AbstractDOMParser only.) -/
+namespace Parsers
+open XV.Gen.ParserFields (PClassInfo fieldId XercesDOMParser DOMLSParserImpl)
+abbrev pclasses := XV.Gen.ParserFields.classes
+
+/-- every data member of every parser class is classified (a member added later breaks this) -/
+theorem parser_all_classified : ∀ c ∈ pclasses, ∀ f ∈ c.fields,
+    f ∈ c.configFields ∨ f ∈ c.perParseFields ∨ f ∈ c.scratchFields := by decide
+
+/-- every per-parse member is re-initialised by the reset events (resetDocument()/resetDocType() and their same-object callees:
+assignment or reset*/removeAll*/clear*/flush* call), or at the start of every parse entry point (DOMLSParserImpl's filter
+tables), or is a reviewed exception.  Moving `fInternalSubset.reset()` out of AbstractDOMParser::reset() breaks this. -/
+theorem parser_reset_complete : ∀ c ∈ pclasses, ∀ f ∈ c.perParseFields,
+    f ∈ c.resetAssigned ∨ f ∈ c.resetCalled ∨ f ∈ c.entryReset ∨ f ∈ c.knownReinitialisedElsewhere := by decide
+
+/-- configuration members are not assigned by the reset events nor (reviewed exceptions apart) by callbacks / parse code, and
+each has a setter or is fixed at construction -/
+theorem parser_config_justified : ∀ c ∈ pclasses, ∀ f ∈ c.configFields,
+    f ∉ c.resetAssigned ∧ (f ∉ c.otherAssigned ∨ f ∈ c.configWrittenElsewhere) ∧ (f ∈ c.setterAssigned ∨ f ∈ c.ctorInit) := by decide
+
+/-- the reviewed exceptions are all needed (an exception that the code no longer requires breaks this, so the lists stay exact) -/
+theorem parser_exceptions_exact : ∀ c ∈ pclasses,
+    (∀ f ∈ c.knownReinitialisedElsewhere, f ∈ c.perParseFields ∧ f ∉ c.resetAssigned ∧ f ∉ c.resetCalled ∧ f ∉ c.entryReset) ∧
+    (∀ f ∈ c.configWrittenElsewhere, f ∈ c.configFields ∧ f ∈ c.otherAssigned) := by decide
+
+/-- with the reset events as `World.reset`, the parser object's own per-parse members satisfy `ResetComplete` too, so
+`history_independent` covers what the parser classes keep between callbacks (exceptions as reviewed) -/
+def toFieldClassP (c : PClassInfo) : FieldClass where
+  perParse := c.perParseFields
+  config := c.configFields
+  resetSet := c.resetAssigned ++ c.resetCalled ++ c.entryReset ++ c.knownReinitialisedElsewhere
+  constCfg := []
+
+theorem parser_classes_reset_complete (resetVal O scan next load) : ∀ c ∈ pclasses,
+    ResetComplete (fieldWorld (toFieldClassP c) resetVal O scan next load) := by
+  intro c hc
+  apply field_reset_complete
+  intro f hf
+  have := parser_reset_complete c hc f hf
+  simp only [toFieldClassP, List.mem_append]
+  rcases this with h | h | h | h
+  · exact Or.inl (Or.inl (Or.inl h))
+  · exact Or.inl (Or.inl (Or.inr h))
+  · exact Or.inl (Or.inr h)
+  · exact Or.inr h
+
+example : pclasses.length = 4 ∧ (pclasses.map (·.perParseFields.length)) = [10, 15, 2, 6] := by decide
+example : fieldId "fInternalSubset" ∈ XercesDOMParser.resetCalled ∧ fieldId "fInternalSubset" ∈ DOMLSParserImpl.perParseFields := by decide
+
+end Parsers
 
 /-! ### DESIGN F11: `fSkipDTDValidation = fSkipDTDValidation && fDoSchema`, the statement IGXMLScanner::scanReset contained
 until /repo 3eb9a2e.  The two theorems are facts about a World of that OLD shape (they do not depend on generated data): they
